@@ -187,6 +187,9 @@ def run_check(pid, tier, seed):
         for sig, case, detail in ctx.violations:
             groups.setdefault(sig, []).append((case, detail))
         findings = load_findings(pid)
+        if (REPLAY_DIR / pid).is_dir():
+            for old in (REPLAY_DIR / pid).glob('*.json'):
+                old.unlink()
         open_sigs = {e['signature']: e for e in findings if e.get('status') == 'open'}
         known, fresh = [], []
         for sig, lst in groups.items():
